@@ -447,6 +447,7 @@ loop:
 	sets := map[string]map[string]struct{}{}
 	violBySig := map[string]int{}
 	var fatal []string
+	culpritSeen := map[string]string{}
 	for _, st := range shards {
 		b, rerr := os.ReadFile(st.out)
 		if st.err != nil || rerr != nil {
@@ -461,7 +462,19 @@ loop:
 				m.Inconcl = append(m.Inconcl, fmt.Sprintf("shard %d died before its first case: %v %s", st.idx, st.err, tail))
 				continue
 			}
-			viol, died, dtail := runSingle(*propID, entry, input, seed, 10*time.Minute)
+			// the same culprit from several shards is re-run once
+			ck := entry + "\x00" + input
+			if prev, ok := culpritSeen[ck]; ok {
+				if prev != "" {
+					m.Inconcl = append(m.Inconcl, fmt.Sprintf("shard %d: same culprit as another shard (%s)", st.idx, prev))
+				}
+				continue
+			}
+			culpritSeen[ck] = ""
+			viol, died, dtail := runSingle(*propID, entry, input, seed, 2*time.Minute)
+			if died {
+				culpritSeen[ck] = "dies or hangs alone"
+			}
 			switch {
 			case died:
 				first := strings.SplitN(strings.TrimSpace(dtail), "\n", 2)[0]
